@@ -146,3 +146,60 @@ func PoolHits() map[string]int64 {
 	})
 	return out
 }
+
+// RangeRec is one work range handed to a worker goroutine at a static
+// partitioning site: worker w of nw gets [Lo,Hi) of the items [Base,End).
+// G identifies the spawning goroutine, so that records of concurrent
+// parallel sections can be told apart.
+type RangeRec struct {
+	Site                     string
+	G                        int64
+	Base, End, W, NW, Lo, Hi int
+}
+
+// goid returns the id of the calling goroutine (parsed from its stack header).
+func goid() int64 {
+	var buf [64]byte
+	b := buf[:runtime.Stack(buf[:], false)]
+	var id int64
+	for _, c := range b[len("goroutine "):] {
+		if c < '0' || c > '9' {
+			break
+		}
+		id = id*10 + int64(c-'0')
+	}
+	return id
+}
+
+var (
+	rangesOn atomic.Bool
+	rangesMu sync.Mutex
+	ranges   []RangeRec
+)
+
+// StartRanges begins recording of Range calls.
+func StartRanges() {
+	rangesMu.Lock()
+	ranges = ranges[:0]
+	rangesMu.Unlock()
+	rangesOn.Store(true)
+}
+
+// StopRanges ends recording and returns the records in call order.
+func StopRanges() []RangeRec {
+	rangesOn.Store(false)
+	rangesMu.Lock()
+	defer rangesMu.Unlock()
+	return append([]RangeRec(nil), ranges...)
+}
+
+// Range is called by the spawning goroutine for every worker it starts.
+func Range(site string, base, end, w, nw, lo, hi int) {
+	if !rangesOn.Load() {
+		return
+	}
+	g := goid()
+	rangesMu.Lock()
+	ranges = append(ranges, RangeRec{site, g, base, end, w, nw, lo, hi})
+	rangesMu.Unlock()
+}
